@@ -372,6 +372,16 @@ def _describe_condition(prog, f, l, limits, first_arg=2):
         if g.path == f.path and first_arg <= pl[0] <= f.nargs:
             fl = [e[1:] for e in pl[1:] if isinstance(e, str) and e.startswith(".") and not e[1:].isdigit()]
             atoms.add((pl[0], fl[0] if fl else None))
+        elif g.path == f.path and pl[0] > f.nargs:
+            # read through a reference to the argument (`(&record).name` of a helper folded into the method)
+            fl = [e[1:] for e in pl[1:] if isinstance(e, str) and e.startswith(".") and not e[1:].isdigit()]
+            for x in A.copy_sources(f, pl[0]):
+                if isinstance(x, int) and first_arg <= x <= f.nargs and fl:
+                    atoms.add((x, fl[0]))
+                elif isinstance(x, tuple) and first_arg <= x[0] <= f.nargs:
+                    xf = [e[1:] for e in x[1:] if isinstance(e, str) and e.startswith(".") and not e[1:].isdigit()]
+                    if xf or fl:
+                        atoms.add((x[0], (xf + fl)[0]))
     dep, _, _ = f.depends_on(l)
     for a in range(first_arg, f.nargs + 1):
         if a in dep and not any(x[0] == a for x in atoms):
